@@ -124,6 +124,40 @@ def C11(tier, seed):
                            "set-emissions settles at the old rate and needs one day of funding"}
 
 
+def C12(tier, seed):
+    drivers = []
+    for tk, rw in (("spl", "0"), ("t22", "1"), ("t22fee", "0")):
+        if tier == "quick":
+            drivers += hist_jobs(f"dual_{tk}_", seed, 3, 4, 150, tk, ["--dual", "1", "--crosscheck", "3", "--rewards", rw])
+        else:
+            drivers += hist_jobs(f"dual_{tk}_", seed, 6, 40, 300, tk, ["--dual", "1", "--crosscheck", "3", "--rewards", rw])
+    drivers += fn_jobs("views", tier, seed, 3000, 100000, shards_q=2, shards_t=8)
+    return {"active": ["C12"], "drivers": drivers, "models": [],
+            "must_exercise": {"increase_liquidity": 20, "decrease_liquidity": 20, "increase_liquidity_v2": 20, "decrease_liquidity_v2": 20},
+            "explanation": "every Pinocchio-served increase/decrease (v1, v2) of recorded histories is also executed, on a copy of the bank, by the Anchor handler "
+                           "(dispatcher that bypasses the routing table): return code, every byte of every account and the emitted events must be equal; every third instruction is "
+                           "re-run through the real extern-C entrypoint (routing table); getters/setters of the memory-mapped views vs the Anchor serializers; usable-tick lookup vs the spec",
+            "assumptions": ["increase_liquidity_by_token_amounts_v2 and reposition_liquidity_v2 have no Anchor handler to compare with (Pinocchio-only); they are covered by the functional checks of C05/C07/C08/C18"]}
+
+
+def C13(tier, seed):
+    gen = [{"name": "ta_paths", "module": "TickArrayModel", "cfg": "TickArrayModel.cfg"}]
+    jobs = []
+    if tier == "quick":
+        for s in range(4):
+            jobs.append({"name": f"ta_{s}", "module": "WpTickArray", "args": ["ta", "--seed", str(seed * 100 + s), "--paths", "@ta_paths@", "--sample", "120", "--random", "150"]})
+        ex = False
+    else:
+        # every reachable content of the boundary slot set (all 6561 behaviours), for each of 8 seeds (-> different start index / spacing)
+        for s in range(8):
+            jobs.append({"name": f"ta_{s}", "module": "WpTickArray", "args": ["ta", "--seed", str(seed * 100 + s), "--paths", "@ta_paths@", "--sample", "100000", "--random", "2500"]})
+        ex = True
+    return {"active": ["C13"], "drivers": jobs, "models": [], "gen": gen, "exhaustive": ex,
+            "explanation": "TLC explores the abstract tick array over the boundary slot set completely (3^8 contents) and prints one shortest update path per content; the harness "
+                           "replays each path and every update/query out of the reached content into Anchor-fixed, Anchor-dynamic, Pinocchio-fixed and Pinocchio-dynamic arrays; "
+                           "TLC validates results, contents, bitmap, used length (148 + 112 n) and next-initialized-tick answers; plus random sequences over all 88 slots with full-width payloads"}
+
+
 _C06, _C08 = C06, C08
 
 
@@ -140,4 +174,4 @@ def C08(tier, seed):
     return p
 
 
-PLANS = {"C01": C01, "C02": C02, "C03": C03, "C05": C05, "C06": C06, "C07": C07, "C11": C11, "C08": C08, "C09": C09}
+PLANS = {"C01": C01, "C02": C02, "C03": C03, "C05": C05, "C06": C06, "C07": C07, "C11": C11, "C12": C12, "C13": C13, "C08": C08, "C09": C09}
